@@ -874,6 +874,67 @@ func longPark(park time.Duration) (sig, what string, stall time.Duration, inconc
 	return "", "", 0, ""
 }
 
+// pollFault (Redis): one poll of a parked waiter is answered with a server error while nothing changes and the
+// context is alive. Whatever the waiter does with the error (report it, or go on polling), it must not return nil
+// ("the key exists with a different version") nor ErrNotExist nor the context's error.
+func pollFault(nth int64) (sig, what, inconclusive string) {
+	rs, err := kvmodel.NewRedisServer()
+	if err != nil {
+		return "", "", "miniredis: " + err.Error()
+	}
+	defer rs.Close()
+	bg := context.Background()
+	r0, err := rs.S.Put(bg, kvs.Record{Key: "pf", Value: []byte("0")})
+	if err != nil {
+		return "", "", "redis Put: " + err.Error()
+	}
+	var gets atomic.Int64
+	rs.MR.Server().SetPreHook(func(p *server.Peer, cmd string, _ ...string) bool {
+		if cmd == "GET" && gets.Add(1) == nth {
+			p.WriteError("ERR injected: server busy")
+			return true
+		}
+		return false
+	})
+	ctx, cancel := context.WithCancel(bg)
+	defer cancel()
+	res := make(chan error, 1)
+	go func() { res <- rs.S.WaitForVersionChange(ctx, "pf", r0.Version) }()
+	// logical steps: wait until the faulty poll and three more polls have reached the server, or the waiter returned
+	t0 := time.Now()
+	for gets.Load() < nth+3 {
+		select {
+		case e := <-res:
+			switch hist.Classify(e) {
+			case hist.ENil:
+				return "redis/wait/returned-without-change", fmt.Sprintf("poll %d of a parked waiter was answered with a server error; the waiter returned nil although the key still has the version it was given and its context is alive", nth), ""
+			case hist.ENotExist:
+				return "redis/wait/invented-not-exist", fmt.Sprintf("poll %d of a parked waiter was answered with a server error; the waiter returned ErrNotExist although the key exists", nth), ""
+			case hist.ECtx:
+				return "redis/wait/context-error-while-context-alive", fmt.Sprintf("poll %d of a parked waiter was answered with a server error; the waiter returned %v although its context is not done", nth, e), ""
+			}
+			return "", "", "" // the storage error is reported: fine
+		case <-time.After(time.Millisecond):
+		}
+		if time.Since(t0) > 120*time.Second {
+			return "", "", "poll-fault: the waiter neither returned nor kept polling for 120 s"
+		}
+	}
+	// it went on polling: a change must still wake it
+	if _, err := rs.S.Put(bg, kvs.Record{Key: "pf", Value: []byte("1")}); err != nil {
+		return "", "", "redis Put: " + err.Error()
+	}
+	select {
+	case e := <-res:
+		if e != nil {
+			return "redis/wait/wrong-result-after-poll-fault", fmt.Sprintf("after a failed poll the waiter went on; the key was overwritten and it returned %v", e), ""
+		}
+	case <-time.After(120 * time.Second):
+		return "", "", "poll-fault: the waiter did not return 120 s after the change"
+	}
+	return "", "", ""
+}
+
 // deadlineWait: waiters whose contexts carry deadlines are parked on a quiet key. Whenever such a waiter
 // returns the context's error, the context must be done at that moment (decided by ctx.Err(), not by a clock);
 // afterwards a change wakes a waiter with a long deadline.
@@ -928,7 +989,7 @@ func TestCheck(t *testing.T) {
 		}
 		run.Finish(t)
 	})
-	run.Rule("scripted: every legal script to the depth bound over {start waiter (key1 cur/stale/unknown, key2 cur; <=3 alive), cancel waiter i, cancel+Put+newcomer without quiescence in between, start+Put without quiescence, Put k1/k2, PutMany k1 / k1+k2, CAS ok, CAS conflict, Delete k1/k2, Create, Put with an expiry, Put of an already expired record, clock +1 h (nobody touches the store)}; every other waiter carries a context deadline 1000 virtual hours ahead from 2 initial states, in a synctest bubble; after EVERY event quiescence, then each waiter must be exactly parked / nil / ErrNotExist / ctx error per model and the waiter table must equal the parked set; free-running: 3 writers + 6 waiters + cancellers on 2 keys per round, waiter returns checked by porcupine as read-like operations, final mutation must release all; burst rounds: 4-16 waiters on the current version start together with one mutation and must all return; Redis long-park: a waiter parked 3.2 s (6.5 s thorough) must notice the change within 1 s. distinct = distinct (event kind, parked-waiter multiset, number of present keys) classes observed at quiescent points + distinct free-running rounds")
+	run.Rule("scripted: every legal script to the depth bound over {start waiter (key1 cur/stale/unknown, key2 cur; <=3 alive), cancel waiter i, cancel+Put+newcomer without quiescence in between, start+Put without quiescence, Put k1/k2, PutMany k1 / k1+k2, CAS ok, CAS conflict, Delete k1/k2, Create, Put with an expiry, Put of an already expired record, clock +1 h (nobody touches the store)}; every other waiter carries a context deadline 1000 virtual hours ahead; Redis poll fault: the 1st/2nd/5th/9th poll of a parked waiter is answered with a server error - the waiter may report it or go on, but must not return nil, ErrNotExist or the context's error from 2 initial states, in a synctest bubble; after EVERY event quiescence, then each waiter must be exactly parked / nil / ErrNotExist / ctx error per model and the waiter table must equal the parked set; free-running: 3 writers + 6 waiters + cancellers on 2 keys per round, waiter returns checked by porcupine as read-like operations, final mutation must release all; burst rounds: 4-16 waiters on the current version start together with one mutation and must all return; Redis long-park: a waiter parked 3.2 s (6.5 s thorough) must notice the change within 1 s. distinct = distinct (event kind, parked-waiter multiset, number of present keys) classes observed at quiescent points + distinct free-running rounds")
 	run.Assume("scripted part: virtual time that only moves at the explicit clock event")
 	run.Assume("free-running 'never misses' uses a 20 s watchdog against a healthy release time of microseconds (inmem) / <=100 ms (Redis polling)")
 
@@ -975,6 +1036,22 @@ func TestCheck(t *testing.T) {
 		}(park)
 	}
 	defer lpwg.Wait()
+	for _, nth := range []int64{1, 2, 5, 9} {
+		lpwg.Add(1)
+		go func(nth int64) {
+			defer lpwg.Done()
+			sig, what, inc := pollFault(nth)
+			if inc != "" {
+				run.Inconclusive(inc)
+				return
+			}
+			run.Eval(1)
+			run.Add("redis_poll_fault_scenarios", 1)
+			if sig != "" {
+				run.Violation(sig, what, map[string]any{"scenario": "poll-fault", "backend": "redis", "failed_poll": nth})
+			}
+		}(nth)
+	}
 	for i := 0; i < run.Pick(2, 12); i++ {
 		for _, backend := range []string{"inmem", "redis"} {
 			lpwg.Add(1)
